@@ -57,6 +57,28 @@ impl<'a> CapVisitor for CapRun<'a> {
     }
 }
 
+/// The same message twice into the SAME buffer without clearing it in between
+/// (a device that accumulates responses, or does not clear after a failure).
+struct TwiceRun<'a> {
+    bytes: &'a [u8],
+    plans: &'a [UnitPlan],
+}
+
+impl<'a> CapVisitor for TwiceRun<'a> {
+    type Out = (Result<(), Error>, Result<(), Error>, Vec<u8>);
+    fn visit<const N: usize>(&mut self) -> Self::Out {
+        let mut resp: ArrayVec<u8, N> = ArrayVec::new();
+        let mut run = |resp: &mut ArrayVec<u8, N>| {
+            let mut dev = LogDev::with_plan(self.plans.to_vec());
+            let mut ctx = Context::default();
+            FIXTREE.run(self.bytes, &mut dev, &mut ctx, resp)
+        };
+        let a = run(&mut resp);
+        let b = run(&mut resp);
+        (a, b, resp.to_vec())
+    }
+}
+
 struct NaRun<'a> {
     bytes: &'a [u8],
     plans: &'static [UnitPlan],
@@ -123,6 +145,29 @@ pub fn check(case: &Case, obs: &Obs) -> CheckResult {
             if l + 1 < MAX_CAP {
                 ensure!(o.result == Err(*e), "failure-differs", "{txt:?}: growable buffer fails with {e:?}, ArrayVec<{MAX_CAP}> gives {:?}", o.result);
                 ensure!(o.buf == vec_resp, "bytes-differ", "{txt:?}: partial output differs on failure");
+            }
+        }
+    }
+    // the buffer re-used without clearing: whatever the growable buffer does with the second run, the
+    // fixed one does the same or reports -225 (differential only; no claim about appending as such)
+    if vec_result.is_ok() && l > 0 {
+        let mut vec2: Vec<u8> = Vec::new();
+        let mut both = |buf: &mut Vec<u8>| {
+            let mut dev = LogDev::with_plan(case.plans.clone());
+            let mut ctx = Context::default();
+            FIXTREE.run(&r.bytes, &mut dev, &mut ctx, buf)
+        };
+        let va = both(&mut vec2);
+        let vb = both(&mut vec2);
+        for cap in [vec2.len().min(MAX_CAP), (vec2.len() + 3).min(MAX_CAP), l.min(MAX_CAP), (l + 1).min(MAX_CAP)] {
+            let Some((a, b, buf)) = dispatch(cap, &mut TwiceRun { bytes: &r.bytes, plans: &case.plans }) else { continue };
+            runs += 2;
+            obs.label("buffer re-used without clearing");
+            if cap >= vec2.len() {
+                ensure!(a == va && b == vb && buf == vec2, "reuse-differs", "{txt:?}: run twice into one buffer of capacity {cap}: {:?} / {:?} / {:?}, the growable buffer gives {:?} / {:?} / {:?}", a.map_err(|e| e.get_code()), b.map_err(|e| e.get_code()), escape(&buf), va.map_err(|e| e.get_code()), vb.map_err(|e| e.get_code()), escape(&vec2));
+            } else if cap >= l {
+                ensure!(a == va, "reuse-differs", "{txt:?}: first of two runs into capacity {cap} gives {:?}", a.map_err(|e| e.get_code()));
+                ensure!(b.map_err(|e| e.get_code()) == Err(-225) && vec2.starts_with(&buf), "reuse-overflow", "{txt:?}: second run into a buffer of capacity {cap} already holding {l} bytes: {:?} with {:?}; the growable buffer ends with {:?}", b.map_err(|e| e.get_code()), escape(&buf), escape(&vec2));
             }
         }
     }
